@@ -1,12 +1,14 @@
 (** C01 — completeness.
-    Proved so far: completeness of the textbook zero-knowledge weighted-inner-product argument
-    (Model/Spec.v) for EVERY number of rounds, half-length, number of blinding generators, field and
-    vector space, and that the prover's vector commitment does not depend on the capacity.
-    The full property statement [C01_completeness_statement] is kept below; the two refinement steps
-    that connect it to these theorems are listed at the end (they are exercised on every run by the
-    coordinate-level correspondence of Exec/ProveExec and Exec/VerifyExec, not yet proved). *)
+    [C01_completeness] is the property for the model: code-shaped prover against code-shaped verifier,
+    every bit length, aggregation, capacity, extension degree, witness, nonce assignment and weight.
+    It is the composition of: completeness of the textbook weighted-inner-product argument for every
+    number of rounds ([C01_wip_complete]); the prover's A through the padded table is the textbook one
+    ([C01_commit_A_textbook]); the range reduction ([C01_range_reduction]); the refinement of the
+    code-shaped folding loop to the textbook prover (Proofs/ProverRefP.v); and C02's verifier equivalence.
+    The model is tied to the implementation by the coordinate-level correspondence run on every check. *)
 From Coq Require Import List Arith NArith Bool.
-From BP Require Import Base.Field Model.Spec Model.Verifier Model.Prover Proofs.WipP Proofs.GuardsP.
+From BP Require Import Base.Field Model.Spec Model.RangeSpec Model.Verifier Model.Prover Proofs.WipP Proofs.GuardsP
+     Proofs.VerifierEquivP Proofs.RangeRedP Proofs.CompleteP.
 Import ListNotations.
 
 (** completeness of the whole argument, any number of rounds *)
@@ -31,26 +33,44 @@ Theorem C01_commit_A_textbook : forall (K : Fld), FldOk K -> forall (M : Mod K),
 Proof. exact commit_A_capacity_independent. Qed.
 Print Assumptions C01_commit_A_textbook.
 
-(** THE FULL STATEMENT (not yet a theorem): for a valid witness the code-shaped prover's output makes
-    the code-shaped verifier's final multiscalar product vanish.  [msm] runs over the verifier's scalars
-    against (table ++ commitments ++ [A1; B; A] ++ L ++ R ++ Gb ++ [H]). *)
-Definition C01_completeness_statement : Prop :=
-  forall (K : Fld), FldOk K -> forall (M : Mod K), ModOk K M ->
-  forall bits cap (g : gens K M) values promises blindings (nn : nonces K) (ch : pchals K) (w : K) ofN,
+(** range reduction (paper Fig. 3 with promises and T blinding generators): for a valid witness the
+    textbook P_0 is the weighted-inner-product commitment to the shifted bit vectors *)
+Theorem C01_range_reduction : forall (K : Fld), FldOk K -> forall (M : Mod K), ModOk K M -> forall (g : gens K M)
+  bits (values : list N) (promises : list (option N)) (blindings : list (list K)) (alpha : list K) (G Hs : list M) (y z : K),
   let m := length values in
-  length (g_G g) = bits * cap -> length (g_Hv g) = bits * cap -> m <= cap -> bits * m = 2 ^ length (pc_es ch) ->
-  pc_y ch <> f0 K -> fsub K (pc_y ch) (f1 K) <> f0 K -> pc_z ch <> f0 K -> pc_e ch <> f0 K -> Forall (fun e => e <> f0 K) (pc_es ch) ->
-  length promises = m -> length blindings = m ->
+  let aL := a_L K bits values promises in
+  let aR := map (fun x => fsub K x (f1 K)) aL in
+  length promises = m -> length blindings = m -> length G = m * bits -> length Hs = m * bits ->
+  Forall (fun r => length r = length alpha) blindings ->
   Forall (fun vp => match snd vp with Some mv => (mv <= fst vp)%N | None => True end) (combine values promises) ->
   Forall (fun vp => (offset_value (fst vp) (snd vp) < 2 ^ N.of_nat bits)%N) (combine values promises) ->
-  (forall a b, ofN (a + b)%N = fadd K (ofN a) (ofN b)) -> ofN 1%N = f1 K ->
+  P0 K M bits (g_H g) G Hs (map (fun vr => commit K M g (fofN K (fst vr)) (snd vr)) (combine values blindings)) promises
+     (vadd M (vadd M (msm aL G) (msm aR Hs)) (msm alpha (g_Gb g))) y z
+  = Com K M (g_H g) (g_Gb g) y (aL_hat K z aL) (aR_hat K bits m y z aR) (alpha_hat K (v_weights K bits m y z) blindings alpha) G Hs.
+Proof. exact range_reduction. Qed.
+Print Assumptions C01_range_reduction.
+
+(** THE PROPERTY: for every bit length >= 1, aggregation m = 2^a <= capacity, extension degree T = |Gb|,
+    every valid witness (promise <= value, value - promise < 2^bits, T blinding factors each), every
+    well-shaped nonce assignment, all challenges non-zero and y <> 1, and every batch weight w, the
+    code-shaped prover's output makes the code-shaped verifier's multiscalar product vanish. *)
+Theorem C01_completeness : forall (K : Fld), FldOk K -> forall (M : Mod K), ModOk K M -> forall (g : gens K M)
+  bits cap (values : list N) (promises : list (option N)) (blindings : list (list K)) (nn : nonces K) (ch : pchals K) (w : K) a,
+  let m := length values in
+  let N := m * bits in
+  let T := length (g_Gb g) in
+  1 <= bits -> m = 2 ^ a -> m <= cap ->
+  length (g_G g) = bits * cap -> length (g_Hv g) = bits * cap ->
+  N = 2 ^ length (pc_es ch) ->
+  pc_y ch <> f0 K -> fsub K (pc_y ch) (f1 K) <> f0 K -> pc_e ch <> f0 K -> Forall (fun e => e <> f0 K) (pc_es ch) ->
+  length promises = m -> length blindings = m -> Forall (fun r => length r = T) blindings ->
+  wf_nonces K T (length (pc_es ch)) nn ->
+  Forall (fun vp => match snd vp with Some mv => (mv <= fst vp)%N | None => True end) (combine values promises) ->
+  Forall (fun vp => (offset_value (fst vp) (snd vp) < 2 ^ N.of_nat bits)%N) (combine values promises) ->
   let p := prove_core K M bits cap g values promises blindings nn ch in
-  let commitments := map (fun vr => commit K M g (ofN (fst vr)) (snd vr)) (combine values blindings) in
-  let t := proof_terms K bits promises (mkVproof K (pp_d1 p) (pp_r1 p) (pp_s1 p)) (mkChals K (pc_y ch) (pc_z ch) (pc_es ch) (pc_e ch)) w in
-  vadd M (vadd M (msm (t_gi t) (g_G g)) (msm (t_hi t) (g_Hv g)))
-         (msm (t_V t ++ [t_A1 t; t_B t; t_A t] ++ t_L t ++ t_R t ++ t_Gb t ++ [t_H t])
-              (commitments ++ [pp_A1 p; pp_B p; pp_A p] ++ pp_L p ++ pp_R p ++ g_Gb g ++ [g_H g])) = v0 M.
-(** Missing to derive it from the theorems above: (1) [prover_refines_spec] — the code-shaped folding loop
-    of Model/Prover.v emits the messages of Model/Spec.v; (2) [range_reduction] + [verifier_equiv] — the
-    code-shaped verifier scalars equal the textbook check on P_0 (C02).  Both are checked coordinate by
-    coordinate against the implementation on every run. *)
+  let commitments := map (fun vr => commit K M g (fofN K (fst vr)) (snd vr)) (combine values blindings) in
+  terms_msm K M (proof_terms K bits promises (mkVproof K (pp_d1 p) (pp_r1 p) (pp_s1 p)) (mkChals K (pc_y ch) (pc_z ch) (pc_es ch) (pc_e ch)) w)
+            (firstn N (g_G g)) (firstn N (g_Hv g)) commitments (g_H g) (g_Gb g) (pp_A1 p) (pp_B p) (pp_A p) (pp_L p) (pp_R p)
+  = v0 M.
+Proof. exact completeness. Qed.
+Print Assumptions C01_completeness.
